@@ -154,15 +154,40 @@ func (x *Exec) intrinsic(fn *ssa.Function, args []Val) (Val, bool) {
 		x.abstract = append(x.abstract, "decimal-literal-value")
 		return x.symFloat("lit"), true
 	case "verifMarshalOf":
-		s := args[0].(Str)
-		if s.Op == nil || s.Op.Kind != "json.Marshal" {
-			return Bool{C: false}, true
+		// "s is JSON text that decodes back to v"
+		sv := args[0].(Str)
+		v := args[1].(Iface)
+		if sv.Op == nil {
+			cs, ok := sv.concrete()
+			if !ok {
+				panic(unsupported{"JSON text with symbolic bytes in verifMarshalOf"})
+			}
+			var out interface{}
+			if json.Unmarshal([]byte(cs), &out) != nil {
+				return Bool{C: false}, true
+			}
+			return x.deepEq(x.goToVal(out), v), true
 		}
-		a, ok := s.Op.Arg.(Iface)
-		if !ok {
-			return Bool{C: false}, true
+		switch sv.Op.Kind {
+		case "json.Marshal":
+			// json.Marshal's output decodes back to its argument (standard-library fact)
+			a, ok := sv.Op.Arg.(Iface)
+			if !ok {
+				return Bool{C: false}, true
+			}
+			return x.deepEq(a, v), true
+		case "itoa":
+			// decimal text of an integer decodes to float64(i)
+			i, ok := sv.Op.Arg.(Int)
+			rv := x.resolve(v)
+			f, isF := rv.V.(Flt)
+			if !ok || !isF {
+				return Bool{C: false}, true
+			}
+			conv := x.convert(i, types.Typ[types.Int64], types.Typ[types.Float64]).(Flt)
+			return x.fltBin(token.EQL, conv, f).(Bool), true
 		}
-		return x.deepEq(a, args[1].(Iface)), true
+		panic(unsupported{"verifMarshalOf on text of unknown provenance (" + sv.Op.Kind + ")"})
 	case "verifGrammarAccepts":
 		sl := args[0].(Slice)
 		var ts []Int
@@ -427,10 +452,25 @@ func (x *Exec) external(fn *ssa.Function, args []Val) (Val, bool) {
 	case "strconv.QuoteRuneToASCII", "strconv.QuoteRune", "strconv.QuoteToASCII":
 		return opaque("quoterune"), true
 	case "strconv.Itoa", "strconv.FormatInt":
-		if i := x.subst(args[0].(Int)); i.conc() {
-			return strOf(strconv.FormatInt(i.sval(), 10)), true
+		i := x.subst(args[0].(Int))
+		base := int64(10)
+		if name == "strconv.FormatInt" {
+			b := x.subst(args[1].(Int))
+			if !b.conc() {
+				panic(unsupported{"FormatInt with symbolic base"})
+			}
+			base = b.sval()
 		}
-		return opaque("itoa"), true
+		if i.conc() {
+			return strOf(strconv.FormatInt(i.sval(), int(base))), true
+		}
+		o := opaque("itoa")
+		if base == 10 {
+			o.Op.Arg = i // decimal text of i
+		} else {
+			o.Op.Kind = "itoa-other-base"
+		}
+		return o, true
 	case "(github.com/jmespath/go-jmespath.tokType).String", "(github.com/jmespath/go-jmespath.astNodeType).String":
 		return opaque(fn.Name()), true
 	case "(*bytes.Buffer).WriteString", "(*bytes.Buffer).String", "(*bytes.Buffer).Reset", "(*bytes.Buffer).WriteByte", "(*bytes.Buffer).Len":
@@ -467,6 +507,34 @@ func (x *Exec) external(fn *ssa.Function, args []Val) (Val, bool) {
 			return Flt{C: math.Floor(f.C)}, true
 		}
 		return x.nmF(Flt{T: "(fp.roundToIntegral RTN " + f.T + ")"}), true
+	case "math.Trunc", "math.Round", "math.RoundToEven", "math.Sqrt":
+		f := args[0].(Flt)
+		if f.T == "" {
+			switch name {
+			case "math.Trunc":
+				return Flt{C: math.Trunc(f.C)}, true
+			case "math.Round":
+				return Flt{C: math.Round(f.C)}, true
+			case "math.RoundToEven":
+				return Flt{C: math.RoundToEven(f.C)}, true
+			}
+			return Flt{C: math.Sqrt(f.C)}, true
+		}
+		switch name {
+		case "math.Trunc":
+			return x.nmF(Flt{T: "(fp.roundToIntegral RTZ " + f.T + ")"}), true
+		case "math.Round":
+			return x.nmF(Flt{T: "(fp.roundToIntegral RNA " + f.T + ")"}), true
+		case "math.RoundToEven":
+			return x.nmF(Flt{T: "(fp.roundToIntegral RNE " + f.T + ")"}), true
+		}
+		return x.nmF(Flt{T: "(fp.sqrt RNE " + f.T + ")"}), true
+	case "math.Signbit":
+		f := args[0].(Flt)
+		if f.T == "" {
+			return Bool{C: math.Signbit(f.C)}, true
+		}
+		return x.nmB(Bool{T: "(fp.isNegative " + f.T + ")"}), true
 	case "math.IsNaN":
 		f := args[0].(Flt)
 		if f.T == "" {
@@ -923,10 +991,10 @@ func (x *Exec) reflectExt(name string, args []Val) Val {
 		switch vv := r.v.(type) {
 		case Slice:
 			idx := x.checkIndex(i, vv.Len)
-			if !idx.conc() {
-				panic(unsupported{"symbolic reflect index"})
-			}
 			et := r.t.Underlying().(*types.Slice).Elem()
+			if !idx.conc() {
+				return RVal{t: et, v: x.loadPath(Array{E: x.sliceElems(vv)}, []Step{{Idx: &idx}}), valid: true}
+			}
 			return RVal{t: et, v: x.sliceElems(vv)[idx.sval()], valid: true}
 		case Str:
 			return RVal{t: types.Typ[types.Uint8], v: x.strIndex(vv, i), valid: true}
